@@ -21,4 +21,4 @@ LLVM_PROFILE_FILE=$R/stress.profraw $T/debug/smconc stress 1 2000 >/dev/null
 $B/llvm-profdata merge -sparse $R/*.profraw -o $R/all.profdata
 $B/llvm-cov report $T/debug/smverif -object $T/debug/smconc -instr-profile=$R/all.profdata /repo/src/*.rs
 for f in /repo/src/*.rs; do echo "== never executed in $(basename $f)"; $B/llvm-cov show $T/debug/smverif -object $T/debug/smconc -instr-profile=$R/all.profdata $f --show-line-counts 2>/dev/null | grep -E '^ +[0-9]+\| +0\|' | cut -c1-140; done
-rm -rf "$T" "$R"
+rm -rf "$T" "$R"; rm -f /repo/default_*.profraw /verif/harness/default_*.profraw   # build scripts of instrumented dependencies leave these behind
